@@ -298,6 +298,7 @@ type wrappedReader struct {
 	lastLine    int64
 	accumulated []*Stmt
 	yield       func([]*Stmt, error) bool
+	stopped     bool // yield returned false, so it must not be called again
 }
 
 func (w *wrappedReader) Read(p []byte) (n int, err error) {
@@ -308,11 +309,13 @@ func (w *wrappedReader) Read(p []byte) (n int, err error) {
 		if w.p.Incomplete() {
 			// Incomplete statement; call back to print "> ".
 			if !w.yield(w.accumulated, w.p.err) {
+				w.stopped = true
 				return 0, io.EOF
 			}
 		} else if len(w.accumulated) == 0 {
 			// Nothing was parsed; call back to print another "$ ".
 			if !w.yield(nil, w.p.err) {
+				w.stopped = true
 				return 0, io.EOF
 			}
 		}
@@ -365,9 +368,13 @@ func (p *Parser) InteractiveSeq(r io.Reader) iter.Seq2[[]*Stmt, error] {
 	return func(yield func([]*Stmt, error) bool) {
 		w := wrappedReader{p: p, rd: r, yield: yield}
 		for stmts, err := range p.StmtsSeq(&w) {
+			if w.stopped {
+				break
+			}
 			w.accumulated = append(w.accumulated, stmts)
 			if err != nil {
 				if !yield(w.accumulated, err) {
+					w.stopped = true
 					break
 				}
 				// If the caller wishes, they can continue in the presence of parse errors.
@@ -379,6 +386,7 @@ func (p *Parser) InteractiveSeq(r io.Reader) iter.Seq2[[]*Stmt, error] {
 			// back to run the statements and print "$ ".
 			if p.tok == _Newl {
 				if !yield(w.accumulated, nil) {
+					w.stopped = true
 					break
 				}
 				w.accumulated = w.accumulated[:0]
@@ -387,6 +395,11 @@ func (p *Parser) InteractiveSeq(r io.Reader) iter.Seq2[[]*Stmt, error] {
 				// another "$ " print thinking that nothing was parsed.
 				w.lastLine = w.p.line + 1
 			}
+		}
+		// The input may end without a newline following the last statements,
+		// in which case they are still pending; do not lose them.
+		if !w.stopped && p.err == nil && len(w.accumulated) > 0 {
+			yield(w.accumulated, nil)
 		}
 	}
 }
